@@ -6,6 +6,7 @@ Require Import ExtrOcamlBasic WorldCheck.
 Require Import Base Fixed Panic Curve Bank BankOps Risk Handlers TransferFee XrateConsts Xrate Price ConfigGen Config Emode ConfigPaths ConfigHealth PrivGen Privilege Deleverage AnchorTypes AnchorSem Gate AccountsTable HandlerFacts Spec AuthCell AuthFixture TxConstants Tx TxToy AcctLifecycle RiskFeed Payout GroupRoles.
 Extraction Language OCaml.
 Separate Extraction
+  feed_of_oracle_venue gr_trace gr_fixture
   ix_group_configure role_accepts role_keys gr_run mkGR mkGC
   pay_step pay_run tok_amt mkPayW MINT_BANK MINT_EM pay_fixture pay_obs pay_trace
   p_pause p_unpause p_unpause_if_expired p_is_expired p_can_pause c_is_expired ix_propagate
